@@ -346,7 +346,7 @@ def run_property(pid, tier):
     conds = [c for c in spec.CONDITIONS if tier in c.tiers]
     only = os.environ.get("VCHECK_ONLY")     # development aid: run the conditions whose name contains this text
     if only:
-        conds = [c for c in conds if only in c.name]
+        conds = [c for c in conds if any(o in c.name for o in only.split("|"))]
         os.environ.setdefault("VCHECK_EVIDENCE_DIR", tempfile.mkdtemp(prefix="vcheck_partial_evidence_"))
     known = load_known(pid)
     scratch = tempfile.mkdtemp(prefix="vcheck_%s_" % pid)
@@ -354,8 +354,12 @@ def run_property(pid, tier):
         for line in check_known_witnesses(pid, known, tier, scratch):
             print(line, flush=True)
         with ThreadPoolExecutor(max_workers=NCPU) as ex:
-            futs = [ex.submit(decide_condition, pid, c, tier, seed, scratch, known) for c in conds]
-            recs = [f.result() for f in futs]
+            # longest budgets first (shorter makespan); results are reported in registration order
+            def budget(c):
+                return (getattr(c, "thorough_timeout", None) or c.timeout) if tier == "thorough" else c.timeout
+            order = sorted(range(len(conds)), key=lambda i: -budget(conds[i]))
+            futs = {i: ex.submit(decide_condition, pid, conds[i], tier, seed, scratch, known) for i in order}
+            recs = [futs[i].result() for i in range(len(conds))]
     finally:
         import shutil
         shutil.rmtree(scratch, ignore_errors=True)
